@@ -56,6 +56,9 @@ class Context:
         V.SIDE.clear()
         self.side_seen = 0
         self._oracle_cache = {}
+        self.ghost_log = []
+        self.sigma_cache = {}
+        self.sigma_terms = []
         V.ORACLE = self.implied
 
     def implied(self, f):
